@@ -226,3 +226,23 @@ pub fn container_labels(e: &[u8]) -> Result<(Vec<String>, usize), String> {
     v.dedup();
     Ok((v, nonlit))
 }
+
+/// deterministic tiny files (0..=9 bytes): the empty file, single bytes that start a scanner
+/// signature or a zstd magic, and short patterns. Sizes at which buffer arithmetic has its
+/// smallest legal values (empty output, expanded form of 3..12 bytes).
+pub fn tiny_files() -> Vec<Vec<u8>> {
+    let mut v: Vec<Vec<u8>> = vec![vec![]];
+    for b in [0x00u8, 0x01, 0x1f, 0x28, 0x49, 0x50, 0x78, 0xff, b'x'] {
+        v.push(vec![b]);
+    }
+    for len in 2..=9usize {
+        v.push(vec![0u8; len]);
+        v.push((0..len).map(|i| b'a' + i as u8).collect());
+        let mut z = vec![0x78u8, 0x9c];
+        z.resize(len, 0x03);
+        v.push(z);
+    }
+    v.push(b"PK".to_vec());
+    v.push(b"hello, world".to_vec());
+    v
+}
